@@ -231,6 +231,32 @@ def single_lambda(body, what):
     """body tokens of start(): exactly `m_thread = std::thread ( <lambda> ) ;` -> (capture tokens, mutable?, lambda body tokens)"""
     tt = texts(body)
     head = ["m_thread", "=", "std", "::", "thread", "("]
+    # the closure may be kept in a local variable first:
+    #   auto NAME = <lambda> ; m_thread = std::thread ( std::move(NAME) ) ;     (or `( NAME )`: the thread gets its own copy either way)
+    # which is normalised to the direct form
+    if len(tt) > 4 and tt[0] == "auto" and tt[2] == "=" and tt[3] == "[":
+        name = tt[1]
+        semi = None
+        depth = 0
+        for i in range(3, len(body)):
+            t = body[i][1]
+            if t in "([{":
+                depth += 1
+            elif t in ")]}":
+                depth -= 1
+            elif t == ";" and depth == 0:
+                semi = i
+                break
+        if semi is None:
+            raise TranslateError("%s: unterminated closure variable declaration" % what)
+        lam = body[3:semi]
+        rest = texts(body[semi + 1:])
+        if rest in (head + ["std", "::", "move", "(", name, ")", ")", ";"], head + [name, ")", ";"]):
+            close_tok = body[-2]
+            body = body[semi + 1:semi + 1 + len(head)] + lam + [close_tok, body[-1]]
+            tt = texts(body)
+        else:
+            raise TranslateError("%s: closure variable `%s` is not handed to std::thread in the recognised way: %s" % (what, name, " ".join(rest[:16])))
     if tt[:len(head)] != head:
         raise TranslateError("%s: body does not start with `m_thread = std::thread(`: %s" % (what, " ".join(tt[:12])))
     close = match(body, len(head) - 1)
@@ -329,6 +355,10 @@ def classify_body(lbody, what, kind, callable_use, pack_name, args_type):
     c = callable_use
     flag_forms = [["m_isFinished", "=", "true"], ["this", "->", "m_isFinished", "=", "true"],
                   ["m_isFinished", ".", "store", "(", "true", ")"], ["this", "->", "m_isFinished", ".", "store", "(", "true", ")"]]
+    # an explicit memory order is accepted when it still publishes the callable's effects (release or stronger)
+    for order in ("memory_order_release", "memory_order_seq_cst", "memory_order_acq_rel"):
+        for pre in ([], ["this", "->"]):
+            flag_forms.append(pre + ["m_isFinished", ".", "store", "(", "true", ",", "std", "::", order, ")"])
     for st in stmts[:-1]:
         t = texts(st)
         if not t:
@@ -410,7 +440,10 @@ def parse_repo(repo):
     _, jbody, _ = parse_cpp_function(ctoks, "join", "Thread.cpp join()")
     _, fbody, _ = parse_cpp_function(ctoks, "isFinished", "Thread.cpp isFinished()")
     join_ok = texts(jbody) == ["m_thread", ".", "join", "(", ")", ";"]
-    fin_ok = texts(fbody) in (["return", "m_isFinished", ";"], ["return", "m_isFinished", ".", "load", "(", ")", ";"])
+    # an acquiring (or stronger) read: observing `true` must be ordered after everything the callable did
+    fin_ok = texts(fbody) in (["return", "m_isFinished", ";"], ["return", "m_isFinished", ".", "load", "(", ")", ";"],
+                              ["return", "m_isFinished", ".", "load", "(", "std", "::", "memory_order_acquire", ")", ";"],
+                              ["return", "m_isFinished", ".", "load", "(", "std", "::", "memory_order_seq_cst", ")", ";"])
     ctor_ok, ctor_txt = parse_ctor(htoks, info)
     return {"startTemplate": tmpl, "startRunnable": runn,
             "joinIsStdJoin": join_ok, "joinBody": txt(jbody),
